@@ -56,16 +56,16 @@ func (c *Client) Stop() {
 		go h(nil)
 	}
 }
-func (c *Client) Errors() <-chan error                            { return nil }
-func (c *Client) SetMessageHandler(h func(data []byte) error)     { c.mu.Lock(); c.msgH = h; c.mu.Unlock() }
-func (c *Client) SetTimeoutConfig(config ws.ClientTimeoutConfig)  {}
-func (c *Client) SetDisconnectedHandler(h func(err error))        { c.mu.Lock(); c.discH = h; c.mu.Unlock() }
-func (c *Client) SetReconnectedHandler(h func())                  { c.mu.Lock(); c.reconH = h; c.mu.Unlock() }
-func (c *Client) IsConnected() bool                               { c.mu.Lock(); defer c.mu.Unlock(); return c.connected }
-func (c *Client) AddOption(option interface{})                    {}
-func (c *Client) SetRequestedSubProtocol(subProto string)         {}
-func (c *Client) SetBasicAuth(username string, password string)   {}
-func (c *Client) SetHeaderValue(key string, value string)         {}
+func (c *Client) Errors() <-chan error                           { return nil }
+func (c *Client) SetMessageHandler(h func(data []byte) error)    { c.mu.Lock(); c.msgH = h; c.mu.Unlock() }
+func (c *Client) SetTimeoutConfig(config ws.ClientTimeoutConfig) {}
+func (c *Client) SetDisconnectedHandler(h func(err error))       { c.mu.Lock(); c.discH = h; c.mu.Unlock() }
+func (c *Client) SetReconnectedHandler(h func())                 { c.mu.Lock(); c.reconH = h; c.mu.Unlock() }
+func (c *Client) IsConnected() bool                              { c.mu.Lock(); defer c.mu.Unlock(); return c.connected }
+func (c *Client) AddOption(option interface{})                   {}
+func (c *Client) SetRequestedSubProtocol(subProto string)        {}
+func (c *Client) SetBasicAuth(username string, password string)  {}
+func (c *Client) SetHeaderValue(key string, value string)        {}
 func (c *Client) Write(data []byte) error {
 	if c.OnWrite != nil {
 		c.OnWrite(data)
@@ -119,6 +119,9 @@ func (c *Client) Reconnect() bool {
 	return !was
 }
 
+// SetConnected changes what IsConnected / Write see without running any handler.
+func (c *Client) SetConnected(b bool) { c.mu.Lock(); c.connected = b; c.mu.Unlock() }
+
 func (c *Client) TakeWritten() [][]byte {
 	c.mu.Lock()
 	defer c.mu.Unlock()
@@ -134,10 +137,10 @@ type Channel struct {
 	Live bool
 }
 
-func (c *Channel) ID() string                              { return c.Id }
-func (c *Channel) RemoteAddr() net.Addr                    { return &net.TCPAddr{IP: net.IPv4(127, 0, 0, 1), Port: 1} }
+func (c *Channel) ID() string                               { return c.Id }
+func (c *Channel) RemoteAddr() net.Addr                     { return &net.TCPAddr{IP: net.IPv4(127, 0, 0, 1), Port: 1} }
 func (c *Channel) TLSConnectionState() *tls.ConnectionState { return nil }
-func (c *Channel) IsConnected() bool                       { return c.Live }
+func (c *Channel) IsConnected() bool                        { return c.Live }
 
 type Frame struct {
 	To   string
@@ -190,17 +193,24 @@ func (s *Server) Stop() {
 		}
 	}
 }
-func (s *Server) StopConnection(id string, closeError websocket.CloseError) error { s.Disconnect(id); return nil }
-func (s *Server) Errors() <-chan error                                          { return nil }
-func (s *Server) SetMessageHandler(h ws.MessageHandler)                         { s.mu.Lock(); s.msgH = h; s.mu.Unlock() }
-func (s *Server) SetNewClientHandler(h ws.ConnectedHandler)                     { s.mu.Lock(); s.newH = h; s.mu.Unlock() }
-func (s *Server) SetDisconnectedClientHandler(h func(ws ws.Channel))            { s.mu.Lock(); s.discH = h; s.mu.Unlock() }
-func (s *Server) SetTimeoutConfig(config ws.ServerTimeoutConfig)                {}
-func (s *Server) AddSupportedSubprotocol(subProto string)                       {}
+func (s *Server) StopConnection(id string, closeError websocket.CloseError) error {
+	s.Disconnect(id)
+	return nil
+}
+func (s *Server) Errors() <-chan error                      { return nil }
+func (s *Server) SetMessageHandler(h ws.MessageHandler)     { s.mu.Lock(); s.msgH = h; s.mu.Unlock() }
+func (s *Server) SetNewClientHandler(h ws.ConnectedHandler) { s.mu.Lock(); s.newH = h; s.mu.Unlock() }
+func (s *Server) SetDisconnectedClientHandler(h func(ws ws.Channel)) {
+	s.mu.Lock()
+	s.discH = h
+	s.mu.Unlock()
+}
+func (s *Server) SetTimeoutConfig(config ws.ServerTimeoutConfig)                          {}
+func (s *Server) AddSupportedSubprotocol(subProto string)                                 {}
 func (s *Server) SetBasicAuthHandler(handler func(username string, password string) bool) {}
-func (s *Server) SetCheckOriginHandler(handler func(r *http.Request) bool)      {}
-func (s *Server) SetCheckClientHandler(handler ws.CheckClientHandler)           {}
-func (s *Server) Addr() *net.TCPAddr                                            { return nil }
+func (s *Server) SetCheckOriginHandler(handler func(r *http.Request) bool)                {}
+func (s *Server) SetCheckClientHandler(handler ws.CheckClientHandler)                     {}
+func (s *Server) Addr() *net.TCPAddr                                                      { return nil }
 func (s *Server) GetChannel(id string) (ws.Channel, bool) {
 	s.mu.Lock()
 	defer s.mu.Unlock()
